@@ -207,3 +207,30 @@ def run_threads(workers, timeout=120):
         if t.is_alive():
             errors.append(TimeoutError("worker thread still running"))
     return errors
+
+
+class ClockOffset:
+    """Pushes the process's clocks forward for code that asks the `time` module (time, monotonic, perf_counter and
+    their _ns forms): `with ClockOffset() as clk: ...; clk.advance(15)`. What the code under test does after that
+    much idle time (expiring pools, refresh intervals) happens now. The real functions are restored on exit."""
+    NAMES = ("time", "monotonic", "perf_counter")
+
+    def __enter__(self):
+        import time
+        self._time = time
+        self.offset = 0.0
+        self._orig = {n: getattr(time, n) for n in self.NAMES}
+        self._orig_ns = {n + "_ns": getattr(time, n + "_ns") for n in self.NAMES}
+        for n, f in self._orig.items():
+            setattr(time, n, (lambda f: (lambda: f() + self.offset))(f))
+        for n, f in self._orig_ns.items():
+            setattr(time, n, (lambda f: (lambda: f() + int(self.offset * 1e9)))(f))
+        return self
+
+    def advance(self, seconds):
+        self.offset += seconds
+
+    def __exit__(self, *exc):
+        for n, f in {**self._orig, **self._orig_ns}.items():
+            setattr(self._time, n, f)
+        return False
